@@ -7,6 +7,8 @@ FUNCS = ['PEPit/point.py::Point.eval', 'PEPit/expression.py::Expression.eval', '
 
 
 def run(run):
+    from pyvc import skeleton
+    skeleton.apply(run, 'C16')
     runner.load_contracts()
     components.ast_functions(run, FUNCS, run.tier, rt_quick=25, rt_thorough=150)
     hc.solve_scenarios(run, 'C16', [('no_value', (run.seed + i,)) for i in range(4 if run.tier == 'quick' else 20)] + [('invalid_options', (run.seed,))],
